@@ -367,8 +367,8 @@ def check_c16(pid, tier, seed, replay):
         v.cov["distinct_nontrivial"] = sum(n for k, n in cov.items() if k.split(".", 2)[2].split(":")[0] in state_dep)
         v.cov["distinct_classes"] = len(cov)
         v.cov["rule"] = ("behaviours of Vauth.tla executed against the real application, one real transaction per operation: B1 = every "
-                         "operation of the alphabet (3 submitters x 5 targets x 12 signature kinds; 3 vesting kinds x 5 targets x 25 routes incl. 18 sibling routes) after "
-                         "each of 4 prefixes; B2 = TLC -simulate behaviours; distinct_nontrivial = operations executed on the real "
+                         "operation of the alphabet (3 submitters x 5 targets x (12 signature kinds + 6 over-long account forms); 3 vesting kinds x 5 targets x 25 routes incl. 18 sibling routes) after "
+                         "each of 5 prefixes; B2 = TLC -simulate behaviours; distinct_nontrivial = operations executed on the real "
                          "application whose admitted outcome depends on the state built by earlier operations of the behaviour (already proven, "
                          "submitter exhausted, proven target, account exists, proof in the same tx), counted by TraceVauth per class")
         v.cov["exhaustive"] = False
@@ -407,7 +407,8 @@ def check_c16(pid, tier, seed, replay):
             "balances and supply are compared in whole units of the 1e18 cost plus a remainder (< 2^31) that only ordinary fees and vesting "
             "amounts touch; submitters hold enough remainder that fees never borrow from the units",
             "signature kinds are a finite menu (genuine: canonical, malleated, upper-case hex, v+27; forged: other key, other message, random, "
-            "64 / 66 bytes, missing prefix, non-hex, empty) - not all byte strings",
+            "64 / 66 bytes, missing prefix, non-hex, empty) - not all byte strings; over-long accounts: 40-byte concatenations of two "
+            "universe addresses (both orders) and a 32-byte variant, signed by either key - not all byte strings either",
             "routes of a vesting-creation message: top-level, MsgExec depth 1..4, MsgExec depth 1..3 listed after harmless siblings (send, "
             "MsgExec{send}) at top level or inside an outer MsgExec, MsgGrant, same transaction as the proof; wrappers other than "
             "authz are outside the property's text",
